@@ -104,6 +104,15 @@ Definition handle (semver : bytes -> bool) (marshal : report -> bytes) (cfg : co
            end
        end.
 
+(* The handler as the HTTP layer calls it: the Content-Length the client
+   DECLARED (-1 = unknown / chunked) is one more input.  Nothing in the chain
+   looks at it: MaxBytesReader limits the bytes that are read, io.ReadAll
+   grows with what arrives.  The answer is a function of the body's bytes
+   (through size_ok and decoded) only. *)
+Definition handle_http (semver : bytes -> bool) (marshal : report -> bytes) (cfg : config)
+    (method : bytes) (declared : Z) (size_ok : bool) (decoded : option report) (m : fs) : status * fs :=
+  handle semver marshal cfg method size_ok decoded m.
+
 (* ---- what the property asks for ---- *)
 Definition approved (cfg : config) (r : report) : bool :=
   forallb (fun o => match o with Some p => program_ok cfg p | None => false end) (r_programs r).
